@@ -44,6 +44,7 @@ class Monitor:
     def __init__(self, ctx):
         self.ctx = ctx
         self.case = None       # set by the driver: dict with the semantic description
+        self.prev = None       # arguments of the previous monitored call (history witness)
 
     def post(self, v_b, p_a_r, doc_width, doc_height, result):
         ctx, case = self.ctx, self.case
@@ -188,8 +189,18 @@ def gen_valid(rng):
 
 
 def gen_malformed(rng):
-    c = rng.randrange(9)
+    c = rng.randrange(11)
     good = "0 0 100 50"
+    if c >= 9:
+        # TWO invalid things at once (a sign can cancel in a ratio): non-positive viewBox size and
+        # non-positive page size on the same or on different axes
+        w, h = rng.choice(((-100, 50), (100, -50), (-100, -50), (-7.5, 3), (0, 5)))
+        dw = rng.choice((-200, 200)) if w < 0 else 200
+        dh = rng.choice((-100, 100)) if h < 0 else 100
+        if dw > 0 and dh > 0:
+            dw = -dw if w < 0 else dw
+            dh = -dh if h < 0 else dh
+        return "malformed:viewBox size and page size both non-positive", "0 0 %s %s" % (w, h), dw, dh
     if c == 0:
         return "malformed:None", None, 100, 100
     if c == 1:
@@ -251,8 +262,29 @@ def run(ctx):
             ctx.case(classes, (vb_text, par, doc_w, doc_h))
         ctx.sample({"viewBox": vb_text, "preserveAspectRatio": desc["args"][1], "doc": [doc_w, doc_h],
                     "class": desc["class"]}, tag=desc["class"].split(" | ")[0], per_tag=1)
+        if mon.prev is not None:
+            desc["previous_call"] = mon.prev
         one_case(ctx, mon, desc)
+        mon.prev = list(desc["args"])
         done += 1
+        # history: the next call shares part of its arguments with this one (same viewBox on
+        # another page, same page and alignment for another viewBox, same everything but the
+        # alignment) - a result must depend on the arguments of THIS call only
+        if not desc["identity"] and rng.random() < 0.25:
+            vb2, vb_text2, par2, align2, mos2, doc_w2, doc_h2, _cell2, _near2 = gen_valid(rng)
+            keep = rng.randrange(3)
+            if keep == 0:       # same viewBox text and alignment, another page
+                vb2, vb_text2, par2, align2, mos2 = vb, vb_text, par, align, mos
+            elif keep == 1:     # same page and alignment, another viewBox
+                par2, align2, mos2, doc_w2, doc_h2 = par, align, mos, doc_w, doc_h
+            else:               # same viewBox and page, another alignment
+                vb2, vb_text2, doc_w2, doc_h2 = vb, vb_text, doc_w, doc_h
+            d2 = {"args": [vb_text2, par2, doc_w2, doc_h2], "identity": False, "class": "history",
+                  "vb": list(vb2), "align": align2, "mos": mos2, "previous_call": mon.prev}
+            ctx.case(["history: related arguments after a previous call", "history keeps %d" % keep],
+                     (vb_text2, par2, doc_w2, doc_h2, "after", vb_text, par, doc_w, doc_h))
+            one_case(ctx, mon, d2)
+            mon.prev = list(d2["args"])
     cells = 0
     for align in ALIGNS:
         for mos in ("meet", "slice"):
@@ -265,9 +297,11 @@ def run(ctx):
         cells += 1
     ctx.extra["alignment_cells_required"] = cells
     for m in ("None", "empty", "fewer than 4 numbers", "non-numeric token",
-              "zero or negative viewBox size", "non-positive page size"):
+              "zero or negative viewBox size", "non-positive page size",
+              "viewBox size and page size both non-positive"):
         ctx.need("malformed:" + m, 50)
     ctx.need("defer", 300)
+    ctx.need("history: related arguments after a previous call", 1000)
     ctx.need("aspect ratios differ by less than 1e-3 (but differ)", 300)
     ctx.need("number without a leading zero", 100)
     ctx.need("number with an explicit plus", 100)
@@ -282,5 +316,11 @@ def replay(ctx, rec):
     if not w["identity"]:
         desc.update(vb=w["vb"], align=w["align"], mos=w["mos"])
     ctx.case(["replay"], None)
+    if w.get("previous_call"):
+        from plotink import plot_utils
+        try:
+            plot_utils.vb_scale(*w["previous_call"])      # the history the witness may depend on
+        except Exception:
+            pass
     one_case(ctx, mon, desc)
     contracts.uninstall_all()
